@@ -966,6 +966,18 @@ def explore_c12(rng, tier, res, deep=False):
         for style in ("'", '"'):
             l2 = style + lit + style
             qs += [f"$[?@.unit == {l2}]", f"$[?{l2} != @]", f"$[?match(@.u, {l2})]", f"$[?length({l2}) == 1]", f"$[?@[{l2}] == {l2}]", f"$..[?search(@, {l2}) || @ == {l2}]"]
+    # FLOAT literals whose shortest repr() has no '.', a positive exponent, many digits, or no finite value at all (the text
+    # printed for a float must read back as the same FLOAT, not as an integer of the same value, and must be a number)
+    fl = []
+    for mant in ("1.0", "2.0", "5.0", "9.0", "1.5", "1.25", "10.0", "123.0", "0.1", "1.0000000000000002", "9.999999999999999", "4.0", "7.0"):
+        for ex in (0, 1, 5, 14, 15, 16, 17, 20, 21, 22, 23, 100, 300, 308):
+            fl += [f"{mant}e{ex}", f"-{mant}E+{ex}"]
+        for ex in (1, 4, 5, 6, 7, 10, 100, 300, 323):
+            fl.append(f"{mant}e-{ex}")
+    fl += ["10000000000000000.0", "100000000000000000000000.0", "9007199254740992.0", "9007199254740993.0", "1" + "0" * 30 + ".0", "1e-7", "1e-5", "5e-324", "2e-308",
+           "1e400", "-1e400", "1.5e400", "-2.0e999", "1.7976931348623157e308", "1.7976931348623159e308", "0.0", "-0.0", "0.0e5", "-0e-3"]
+    for sp in fl:
+        qs += [f"$[?@.a == {sp}]", f"$[?{sp} < @.a || @.b >= {sp}]", f"$[?vf({sp}) != @.a]"]
     qs += ["$[?@.a && @.a]", "$[?@.a || @.a]", "$[?(@.a) && ((@.a))]", "$[?1 == 1 && 1 == 1]", "$[?@.a == @.a]", "$[?!(!(@.a && @.a))]", "$[?@.a && @.b && @.a]",
            "$[-1,0,1]", "$[2,3,4]", "$[0,0]", "$['a','a']", "$[1:2]", "$[-1:0]", "$[0:1:1]", "$[?@.a < 1.0]", "$[?@.a == 2.0]", "$[?@.a == 250e-1]", "$[?@.a == 1e0]"]
     qs += ["$[?!(@.a == 1)]", "$[?!(@.a && @.b)]", "$[?(@.a || @.b) && @.c]", "$[?@.a || @.b && @.c]", "$[?!(!@.a)]",
@@ -988,9 +1000,6 @@ def explore_c12(rng, tier, res, deep=False):
         except Exception as exc:  # noqa: BLE001
             res.violations.append({"property": "C12", "query": q, "observed": "PY:" + type(exc).__name__, "expected": "a string",
                                    "what": "str(query) raised"})
-            continue
-        if "inf" in s or "nan" in s:
-            res.count("outside-exact-range")
             continue
         try:
             c2 = env.compile(s)
